@@ -912,6 +912,52 @@ def rewriting_tie(R):
 
 
 # ----------------------------------------------------------------------------------------------
+# ----------------------------------------------------------------------------------------------
+# structures that LIVE: the caller edits K (add_edge between existing states, new states) between two get_fair_states calls
+# ----------------------------------------------------------------------------------------------
+def evolving_structures(R):
+    """get_fair_states must answer for the structure AS IT IS NOW: after every caller edit through the public API the fair set
+    is compared with the faithful model run on the presentation read back from the live object (so KF-C15-a is reproduced, not
+    flagged) - something remembered from before the edit (e.g. a cached reversed graph) shows up as a difference"""
+    rng = random.Random(R.seed + 1515)
+    cmds, meta = [], []
+    for case in range(1200 if R.thorough else 150):
+        n = rng.randint(2, 5)
+        kd = clustered_case(rng)[0] if rng.random() < 0.4 else rand_kripke(rng, n)
+        K = kd_py(kd)
+        F = rand_F(rng, list(K.states()), foreign=False)
+        trace = []
+        for step in range(rng.randint(2, 4)):
+            r = canon(call(lambda: K.get_fair_states(mkF(F, rng.choice(['list', 'tuple', 'frozen'])))), K)
+            cmds.append(['fair', kripke_sx(K), [sorted(P) for P in F]])
+            meta.append((case, kd, F, list(trace), r))
+            st = sorted(K.states())
+            non_edges = [(a, b) for a in st for b in st if b not in K.next(a)]
+            if non_edges and rng.random() < 0.8:
+                a, b = rng.choice(non_edges)
+                K.add_edge(a, b)
+                trace.append(['add_edge', a, b])
+            else:
+                v = max(st) + 1
+                a, b = rng.choice(st), rng.choice(st)    # a new state needs a successor (totality is the caller's duty here)
+                K.add_edge(v, a)
+                K.add_edge(b, v)
+                trace += [['add_edge', v, a], ['add_edge', b, v]]
+    outs = model_batch_parallel(cmds)
+    bad = 0
+    for (case, kd, F, trace, r), o in zip(meta, outs):
+        R.evaluations += 1
+        m = ('ok', sorted(ints(o)))
+        if tuple(r) != m:
+            bad += 1
+            if bad <= 5:
+                R.violation('get_fair_states after the caller edited K differs from the faithful model on the current structure',
+                            {'stream': 'evolving', 'kripke': kd_json(kd), 'F': F, 'caller_edits_so_far': trace, 'impl': r, 'model_on_current_structure': m})
+        elif trace:
+            R.nontriv(('evolving', case, len(trace)))
+    R.cov['evolving_structures'] = {'get_fair_states_calls': len(meta), 'differences': bad}
+
+
 def run(R):
     R.rule = ('(K, F) and (K, F, formula, logic): the witnesses of KF-C15-a/b and of the two fixed: entries; every total structure with '
               '<= 2 states over labels {p,q} x every list F of <= 2 subsets of the states (both orders of a pair in thorough) x templates sampled per structure '
@@ -928,6 +974,7 @@ def run(R):
               '(structure, F[, logic, formula])')
     R.cov['explanation'] = EXPLANATION
     rewriting_tie(R)
+    evolving_structures(R)
     groups = build_groups(R)
     t0 = time.time()
     results = run_groups(groups, jobs=min(16, os.cpu_count() or 1))
@@ -975,6 +1022,21 @@ def replay(R, data):
         return
     kd = kd_from_json(d['kripke'])
     F = d.get('F')
+    if d.get('stream') == 'evolving':
+        K = kd_py(kd)
+        call(lambda: K.get_fair_states(mkF(F, 'list')))          # the caller had asked before editing
+        for ed in d['caller_edits_so_far']:
+            if ed[0] == 'add_edge':
+                K.add_edge(ed[1], ed[2])
+                print('caller: K.add_edge(%r, %r)' % (ed[1], ed[2]))
+                call(lambda: K.get_fair_states(mkF(F, 'list')))
+        r = canon(call(lambda: K.get_fair_states(mkF(F, 'list'))), K)
+        m = ('ok', sorted(ints(model_batch([['fair', kripke_sx(K), [sorted(P) for P in F]]])[0])))
+        print('impl :', r)
+        print('model on the current structure:', m)
+        if tuple(r) != m:
+            R.violation('replayed', d)
+        return
     kind = d.get('Fkind', 'list')
     g = {'kd': kd, 'Fs': [] if F is None else [(F, kind)]}
     if 'formula' in d:
